@@ -229,6 +229,17 @@ fn case_random<F: Family>(input: &Input, ctx: &mut Ctx) -> CaseResult {
             ctx.label("pending-inside-var-int");
         }
     }
+    // long runs of ready reads without any Pending (one and two bytes at a time)
+    if data.len() <= 70_000 {
+        for k in [1usize, 2] {
+            let steps: Vec<Step> = (0..data.len() / k + 2).map(|_| Step::Chunk(k)).collect();
+            let run = fam::dec_poll_scripted::<F>(&data, &steps, 0, None, true);
+            let what = format!("{} stream [{}] delivered {} byte(s) per read without any Pending", F::FAM.name(), origin, k);
+            compare::<F>(&data, &one, &run, &what).map_err(Violation::new)?;
+        }
+        ctx.label("fine-grained-without-pending");
+        ctx.more_evals(2);
+    }
     ctx.more_evals(2);
     ctx.label(&format!("origin:{}", origin));
     ctx.label(&format!("header-width:{}", hl.saturating_sub(1)));
